@@ -123,6 +123,7 @@ fn mt_ops(kinds: &'static [Kind], sq_sizes: &[u32], faults: bool) {
     let cq = sq * tape::pick(site::GEOM, &[4u32, 2, 8]);
     let sqpoll = tape::chance(site::GEOM, 1, 5);
     let single_issuer = !sqpoll && tape::chance(site::GEOM, 1, 4);
+    let defer_taskrun = single_issuer && tape::chance(site::GEOM, 1, 2);
     let nthreads = 2 + tape::choose(site::GEOM, 3) as usize;
     let mut kcfg = if faults { crate::engine::draw_kcfg(true) } else { KCfg::default() };
     kcfg.p_intr = 0;
@@ -133,7 +134,7 @@ fn mt_ops(kinds: &'static [Kind], sq_sizes: &[u32], faults: bool) {
     kcfg.p_complete_in_wait = 60;
     kcfg.sqpoll_sleepy = tape::chance(site::CFG, 1, 2);
     kernel::with(|k| k.cfg = kcfg);
-    trace(&[tag::CFG, sq, cq, u32::from(sqpoll) + 2 * u32::from(single_issuer), nthreads as u32]);
+    trace(&[tag::CFG, sq, cq, u32::from(sqpoll) + 2 * u32::from(single_issuer) + 4 * u32::from(defer_taskrun), nthreads as u32]);
     ev!("h mt config sq={sq} cq={cq} sqpoll={sqpoll} single_issuer={single_issuer} threads={nthreads}");
 
     let ring = alloc::a10(|| {
@@ -147,6 +148,11 @@ fn mt_ops(kinds: &'static [Kind], sq_sizes: &[u32], faults: bool) {
             // Other threads still share the submission queue; only the ring's
             // thread enters the kernel.
             c = c.single_issuer();
+        }
+        if defer_taskrun {
+            // Completions become visible only when the ring's thread asks for
+            // events.
+            c = c.defer_task_run();
         }
         c.build()
     });
